@@ -5,7 +5,7 @@ import random
 from harness import core, htmlnorm, treegen, trees, xdoc
 
 GEN = ['gen_tables', 'gen_regex', 'gen_config', 'gen_escapes', 'gen_core']
-THEOREMS = ['C03_link_scanners_are_the_source', 'C03_fragment_parses', 'C03_fragment_token_tree', 'C03_fragment_hypotheses', 'C03_fragment_fuel_suffices', 'C03_fragment_document',
+THEOREMS = ['C03_indented_code_block', 'C03_indented_code_hypotheses', 'C03_link_scanners_are_the_source', 'C03_fragment_parses', 'C03_fragment_token_tree', 'C03_fragment_hypotheses', 'C03_fragment_fuel_suffices', 'C03_fragment_document',
             'C03_fragment_html', 'C03_fragment_markdown_html', 'C03_fragment_html_instance', 'C03_fragment_paragraph_lines_instance', 'C03_fragment_headings_instance', 'C03_outline_lists', 'C03_outline_html', 'C03_outline_instance',
             'C03_fragment_document_markdown', 'C03_fragment_document_configs', 'C03_bounded_trees', 'C03_family_is_not_vacuous']
 TRUSTED = ['harness/treegen.py: the tree grammar, the speller (every free choice drawn and counted) and the direct HTML writer - the independent oracle; '
@@ -228,6 +228,30 @@ def outline_worker(seed):
     return text, ok, (got, gl, html), ([want_tree], want_lines, want_html + '\n')
 
 
+CODE_PIECES = ['x', 'def f(x):', 'return', '<b>', '&amp;', '&', '"q"', "'s'", '- item', '> quote', '# head', '1. one', '```', '~~~', '[a]: /u', '| t |', '***', '---',
+               '===', '    ', '  ', ' ', '\\', '`c`', '*e*', '_u_', 'é', '中', '\xa0', 'end;']
+
+
+def code_worker(seed):
+    """the class of C03_indented_code_block: lines that begin with four spaces and are not blank"""
+    import html
+    import mistletoe
+    rng = random.Random(seed)
+    lines = []
+    for _ in range(rng.randint(1, 8)):
+        l = ''.join(rng.choice(CODE_PIECES) for _ in range(rng.randint(1, 6)))
+        if not l.strip() or '\t' in l:
+            l = 'x' + l
+        lines.append(l)
+    text = ''.join('    ' + l + '\n' for l in lines)
+    want = '<pre><code>' + html.escape('\n'.join(lines) + '\n', quote=False) + '</code></pre>\n'
+    try:
+        got = mistletoe.markdown(text)
+    except Exception as e:
+        got = 'EXC %s: %s' % (type(e).__name__, e)
+    return text, got == want, got, want
+
+
 def frag_worker(args):
     seed, depth = args
     rng = random.Random(seed)
@@ -317,6 +341,18 @@ def run(ctx, only=None):
         if not ok:
             ctx.failing.append({'interface': 'oracle(outline)', 'input': {'text': text, 'outline_seed': seed},
                                 'what': 'a tight nested bullet list written one item per line does not parse to the forest it was written from', 'observed': got, 'expected': want, 'kf': None})
+    # indented code blocks of any content (C03_indented_code_block), on the implementation
+    cjobs = [rng.randint(0, 2 ** 40) for _ in range(1500 if ctx.quick() else 30000)]
+    with mp.Pool(core.NPROC) as pool:
+        cres = pool.map(code_worker, cjobs, chunksize=100)
+    for seed, (text, ok, got, want) in zip(cjobs, cres):
+        ctx.count('evaluations')
+        ctx.count('indented_code_blocks')
+        if len(ftexts) < (1100 if ctx.quick() else 16000):
+            ftexts.append(text)
+        if not ok:
+            ctx.failing.append({'interface': 'oracle(indented code)', 'input': {'text': text, 'code_seed': seed},
+                                'what': 'lines indented by four spaces are not one code block holding exactly those lines', 'observed': got, 'expected': want, 'kf': None})
     xdoc.run(ctx, texts + ftexts, cfgs=(0,))
 
 
